@@ -532,6 +532,13 @@ struct LenVis<'a, 'c, 'cc> {
     arg: u8,
     delta: i8,
     class: &'a str,
+    /// oracle id for "accepted a wrong-length argument" (C05.lengths here; C16 borrows these plans)
+    oracle: &'a str,
+}
+
+/// The wrong-length misuse case, also run by C16 (fallible FLP operations must refuse, not panic).
+pub fn exec_lengths(ctx: &mut Ctx, inst: &Inst, meas: &[N], which: &str, arg: u8, delta: i8, oracle: &str) -> Result<(), String> {
+    with_typ(inst, meas, LenVis { ctx, which, arg, delta, class: &inst.class, oracle })?
 }
 
 impl<'a, 'c, 'cc> TypVisitor for LenVis<'a, 'c, 'cc> {
@@ -612,7 +619,7 @@ impl<'a, 'c, 'cc> TypVisitor for LenVis<'a, 'c, 'cc> {
         match r {
             Err(v) => ctx.fail(v),
             Ok(Err(_)) => ctx.counters.inc("c05.wrong_length_refused"),
-            Ok(Ok(_)) => ctx.fail(Violation::new("C05.lengths", format!("accepts_wrong_length|{}|{}", self.class, self.which), format!("{}::{} accepted an argument (index {}) that is one element too {}", self.class, self.which, self.arg, if self.delta < 0 { "short" } else { "long" }))),
+            Ok(Ok(_)) => ctx.fail(Violation::new(self.oracle, format!("accepts_wrong_length|{}|{}", self.class, self.which), format!("{}::{} accepted an argument (index {}) that is one element too {}", self.class, self.which, self.arg, if self.delta < 0 { "short" } else { "long" }))),
         }
         Ok(())
     }
@@ -637,7 +644,7 @@ fn exec(p: &Plan5, ctx: &mut Ctx) -> Result<(), String> {
         }
         Plan5::Lengths { inst, meas, which, arg, delta } => {
             ctx.sig.str("lengths").str(&inst.class).str(which).u64(*arg as u64).u64((*delta + 1) as u64);
-            with_typ(inst, meas, LenVis { ctx, which, arg: *arg, delta: *delta, class: &inst.class })?
+            exec_lengths(ctx, inst, meas, which, *arg, *delta, "C05.lengths")
         }
     }
 }
